@@ -209,3 +209,50 @@ _run2 = run
 def run(cx):
     _run2(cx)
     enc_agnostic(cx)
+
+
+_run3 = run
+
+
+def sec1_private(cx):
+    """F-SEC1-PRIV: the SEC1 decoder hands the privateKey octets to the validating constructor unchanged (length and
+    range are decided there: G-CTOR-PRIV, L-PRIV32), and the encoder writes the 32-byte big-endian scalar — so a key
+    survives its own round trip whatever its leading bytes are."""
+    fn = cx.fn("pkcs::<impl std::convert::TryFrom<sec1::EcPrivateKey<'_>> for key::Sm2PrivateKey>::try_from", 'F-SEC1-PRIV')
+    if fn is not None:
+        P = Prov(fn, cx.F); cn = Canon(fn, P)
+        news = G.call_blocks(fn, '<impl key::Sm2PrivateKey>::new')
+        if len(news) != 1:
+            cx.violate('F-SEC1-PRIV', 'decode', 'expected exactly one call of the validating constructor Sm2PrivateKey::new in the SEC1 decoder, found %d' % len(news), fn.loc())
+        else:
+            a = strip(G.call_args(fn, P, news[0])[0])
+            e = a
+            while e.k in ('deref', 'ref') and e.args:
+                e = strip(e.args[0])
+            ok = e.k == 'field' and e.name == 'private_key' and e.args and strip(e.args[0]).k == 'param'
+            cx.add('F-SEC1-PRIV', 'decode', ok, 'the privateKey octets reach Sm2PrivateKey::new unchanged: %s' % FR.short(cn.c(a), 120), G.where(fn, news[0]))
+    fn = cx.fn('pkcs::<impl key::Sm2PrivateKey>::to_sec1_der', 'F-SEC1-PRIV')
+    if fn is not None:
+        P = Prov(fn, cx.F); cn = Canon(fn, P)
+        ag = G.aggr_blocks(fn, 'EcPrivateKey::EcPrivateKey')
+        ok = False
+        got = None
+        for b, i, rv in ag:
+            e = strip(norm(P.operand(rv['ops'][0], b, i)))
+            got = e.show()
+            # transparent wrappers: Zeroizing::new, Deref::deref, as_slice, references
+            while e.k in ('deref', 'ref') or (e.k == 'call' and last(e.name) in ('deref', 'new', 'as_slice', 'as_ref', 'borrow') and len(e.args) == 1):
+                e = strip(e.args[0])
+            ok = e.k == 'call' and fn_is(e.name, '<impl key::Sm2PrivateKey>::to_bytes_be') and len(e.args) == 1 and strip(e.args[0]).k == 'param'
+        cx.add('F-SEC1-PRIV', 'encode', ok, 'the privateKey field written by to_sec1_der is the key\'s own 32-byte big-endian encoding: %s' % FR.short(got or '?', 120), fn.loc())
+    fn = cx.fn('<impl key::Sm2PrivateKey>::to_bytes_be', 'F-SEC1-PRIV')
+    if fn is not None:
+        from .. import rules_i as I
+        r = [v for _, v in I.returns(fn, cx.F, True)]
+        cx.add('F-SEC1-PRIV', 'to_bytes_be', len(r) == 1 and r[0] in ('BE($self.d)', 'to_byte_be($self.d)', 'u256_to_be_bytes($self.d)') or (len(r) == 1 and '$self.d' in r[0] and 'BE(' in r[0]),
+               'Sm2PrivateKey::to_bytes_be is the fixed-width big-endian encoding of d: %s' % r, fn.loc())
+
+
+def run(cx):
+    _run3(cx)
+    sec1_private(cx)
